@@ -61,6 +61,9 @@ func (e *Engine) fmtValue(st *State, v Value, verb byte) *Term {
 				}
 				return StrC(fmt.Sprint(x.Signed()))
 			}
+			if verb != 'x' && x.W == 64 {
+				return itoaTerm(st, x)
+			}
 			return FreshVar("fmt.int", SString, 0)
 		}
 	case Iface:
@@ -401,12 +404,7 @@ func registerStrings(e *Engine) {
 		if x.Const {
 			return c.Return(StrC(strconv.FormatInt(x.Signed(), 10)))
 		}
-		// non-negative small ints: exact via str.from_int; otherwise opaque
-		nn := BVSle(BVC(0, 64), x)
-		if c.St.quick(nn) == 1 || !c.E.Feasible(c.sol2(), c.St, Not(nn)) {
-			return c.Return(newTerm(&Term{Kind: SString, Op: "str.from_int", Args: []*Term{BVToIntNat(x)}}))
-		}
-		return c.Return(FreshVar("itoa", SString, 0))
+		return c.Return(itoaTerm(c.St, x))
 	}
 	e.Intr["strconv.Atoi"] = func(c *Call) []*State {
 		s := c.argTerm(0)
@@ -549,6 +547,22 @@ func registerStrings(e *Engine) {
 	}
 }
 
+// itoaTerm: decimal rendering of a symbolic signed 64-bit term as an uninterpreted
+// function of the value whose result is a well-formed decimal numeral (non-empty,
+// digits and '-' only, at most 20 bytes). Exact digits are not tracked (bv2nat/str.from_int
+// stall the string solvers).
+func itoaTerm(st *State, x *Term) *Term {
+	DeclareFun("int_str", "(declare-fun |int_str| ((_ BitVec 64)) String)")
+	r := App("int_str", SString, 0, x)
+	key := "int_str:" + x.SMT()
+	if _, ok := st.Ghost[key]; !ok {
+		st.Ghost[key] = True
+		st.Assume(StrInRe(r, Raw(SRegLan, 0, `(re.+ (re.union (re.range "0" "9") (str.to_re "-")))`)))
+		st.Assume(intCmp("<=", StrLenInt(r), IntC(20)))
+	}
+	return r
+}
+
 func BVToIntNat(b *Term) *Term {
 	if f := intForm(b); f != nil {
 		return f
@@ -560,6 +574,9 @@ func BVToIntNat(b *Term) *Term {
 func (e *Engine) lowerASCII(c *Call, s *Term) (*Term, []*State, bool) {
 	if s.Const {
 		return StrC(strings.ToLower(s.S)), nil, true
+	}
+	if s.Op == "app:int_str" {
+		return s, nil, true // decimal numerals have no letters
 	}
 	key := "lower:" + s.SMT()
 	if v, ok := c.St.Ghost[key]; ok {
@@ -608,6 +625,9 @@ func (e *Engine) trimSet(st *State, s *Term, set string, left, right bool) *Term
 		default:
 			return StrC(strings.TrimRight(s.S, set))
 		}
+	}
+	if s.Op == "app:int_str" && !strings.ContainsAny(set, "-0123456789") {
+		return s // decimal numerals contain only digits and '-'
 	}
 	key := fmt.Sprintf("trim:%v%v:%s:%s", left, right, set, s.SMT())
 	if v, ok := st.Ghost[key]; ok {
